@@ -211,6 +211,47 @@ def physical(chk, st, sp, det, key, cancel=False):
         chk.violation(key + ":diagonal-vs-probability", dict(det))
 
 
+def many_sites(chk, rng, tier):
+    """Beyond the exhaustive bound in the number of SITES: 13 visible units (8192 basis states), small lattice
+    parameters; normalisation, reported probabilities and sampled matrix elements against the defining sums
+    (partial trace over the auxiliary units written out) evaluated with 50 digits."""
+    for rep in range(1 if tier == "quick" else 3):
+        pt = lattice.random_purif_point(rng, nvmax=1, nhmax=1, namax=1, small=True)
+        nv = 13
+        pt["nv"] = nv
+        g = lambda: lattice.nz(rng, 1)  # noqa: E731
+        for name in ("W", "Wm", "u", "um"):
+            pt[name] = [[g() for _ in range(nv)]]
+        pt["b"] = [g() for _ in range(nv)]
+        pt["bmm"] = [g() for _ in range(nv)]
+        B = mpmath.mpf(pt["B"])
+        W, b, c, u, dd = pt["W"][0], pt["b"], pt["c"][0], pt["u"][0], pt["dd"][0]
+
+        def diag(v):      # rho(v, v) = e^{b.v} (1 + e^{c + W.v}) (1 + e^{2 (dd + u.v)})     (U = 2u, d = 2dd)
+            return (B ** sum(b[i] * v[i] for i in range(nv)) * (1 + B ** (c + sum(W[i] * v[i] for i in range(nv))))
+                    * (1 + B ** (2 * (dd + sum(u[i] * v[i] for i in range(nv))))))
+        rows = [[(k >> (nv - 1 - i)) & 1 for i in range(nv)] for k in range(2 ** nv)]
+        ds = [diag(v) for v in rows]
+        Z = mpmath.fsum(ds)
+        st = lattice.density_state(pt)
+        sp = st.generate_hilbert_space(nv)
+        det = dict(point={k: (v if not isinstance(v, list) or len(str(v)) < 200 else "...") for k, v in pt.items()}, many_sites=True)
+        chk.evaluations += 3
+        if not terms.close(st.normalization(sp).item(), Z, rel=1e-9):
+            chk.violation("lattice:normalization[13 sites]", dict(det, got=st.normalization(sp).item(), expected=mpmath.nstr(Z, 17)))
+        prob = st.probability(sp)
+        if not terms.close(prob.sum().item(), Z, rel=1e-9):
+            chk.violation("lattice:trace[13 sites]", dict(det, got=prob.sum().item(), expected=mpmath.nstr(Z, 17)))
+        for k in (0, 4095, 4096, 4097, 2 ** nv - 1, rng.randrange(2 ** nv)):
+            chk.evaluations += 2
+            if not terms.close(prob[k].item(), ds[k], rel=1e-9):
+                chk.violation("lattice:probability[13 sites]", dict(det, state=k, got=prob[k].item(), expected=mpmath.nstr(ds[k], 17)))
+            one = st.rho(sp[k], sp[k]).reshape(-1)
+            if not terms.close(one[0].item(), ds[k], rel=1e-9) or abs(one[1].item()) > 1e-9 * float(ds[k]):
+                chk.violation("lattice:rho[13 sites]", dict(det, state=k, got=one.tolist(), expected=mpmath.nstr(ds[k], 17)))
+        chk.nontriv(("many-sites", rep))
+
+
 def run(tier, seed):
     chk = common.Check(PID, tier, seed)
     lattice.REUSE = True          # parameter settings reached on live objects, by every route (see lattice.py)
@@ -279,6 +320,7 @@ def run(tier, seed):
                     p.copy_((torch.rand_like(p) * 2 - 1) * mag)
             st.rbm_ph.aux_bias.zero_()
         physical(chk, st, lattice.space(nv), dict(non_lattice=True, nv=nv, nh=nh, na=na, mag=mag, seed=seed, i=i), "real-params")
+    many_sites(chk, rng, tier)
     chk.extra["points_replayed"] = len(exps)
     chk.assumptions += ["lattice: amplitude W,b,c in ln(B)Z, U,d in 2ln(B)Z; phase W,c in ln(B)Z, U,b in pi*Z, aux bias 0",
                         "PSD follows from the Gram definition whose closed form TLC checks entrywise; at non-lattice "
